@@ -140,7 +140,9 @@ def gen_plan(rng, index, tier):
         elif op == "rotate":
             kw["k"] = rng.choice([1, 2, 3, 5])
         elif op == "std":
-            kw["which"] = rng.choice(["power", "flux", "mgFlux", "keff", "notes", "buLimit", "pdens", "detailedNDens", "percentBuByPin"])
+            kw["which"] = rng.choice(["power", "flux", "mgFlux", "keff", "notes", "buLimit", "pdens", "detailedNDens", "percentBuByPin", "nozzleType", "crElevation"])
+            if kw["which"] in ("nozzleType", "crElevation") and cfg.get("reactor") == "gen":
+                cfg["blueprint"]["nozzle"] = True
         steps.append(c06._mk_step(0, a["name"], pt, op, **kw))
     if any(s_["op"] == "rewrite" for s_ in steps) and cfg.get("reactor") == "gen" and cfg["blueprint"].get("geom", "hex") != "cartesian":
         # what a turned assembly changes in the stored layout is the place of its pins
@@ -337,6 +339,11 @@ def op_std(d, st, actor):
         for j, bb in enumerate(blks):
             mult = max([int(c.getDimension("mult")) for c in bb if c.getDimension("mult")] or [1])
             bb.p.percentBuByPin = [round(0.01 * u + 0.001 * j + 1e-4 * i, 6) for i in range(mult)]
+    elif w == "nozzleType":
+        # a value the assembly design states in the blueprints, changed during the run (a re-orificing)
+        b.parent.p.nozzleType = f"Orifice-{st['u']}"
+    elif w == "crElevation":
+        b.parent.p.crCurrentElevation = 30.0 + u
     elif w == "detailedNDens":
         for j, bb in enumerate(blks):
             bb.p.detailedNDens = np.array([1e-3 * u, 1e-4 * j])
